@@ -1,6 +1,6 @@
 (* C20 — a terminal abort always surfaces as an error identifying its result code.  Statements only. *)
 From Zvt Require Import Base Length Cp437 Encoding Codec Lookup Client ClientProps SpecCheck.
-From Zvt Require Import ClientLog.
+From Zvt Require Import Sequence SeqLookup ClientLog.
 From Zvt.gen Require Tables.
 From Zvt.spec Require Spec.
 Open Scope N_scope.
@@ -71,6 +71,16 @@ Theorem C20_call_result_is_fold_over_received_items : forall (A B : Type) cfg (h
   fst (consume fuel cfg (start_retry q T) w acc h fin) = run_handler h fin acc its.
 Proof. exact @call_follows_polls. Qed.
 
+(* ... down to the bytes: on a connection that already holds the whole reply script, the call's result is the handler folded over exactly
+   the items the trace model (Sequence.v, the model of C05 / C06) reads from those bytes *)
+Theorem C20_call_on_buffered_replies : forall (A B : Type) cfg (h : A -> N -> value -> option (cres B) * A) fin q T id k its fuel w acc,
+  w_cur w = Some id -> valid_id w id -> settled (get_conn w id) ->
+  ev_items (run_seq_fuel (S k) (q_mode q) (q_cmd q) ack_enum (q_replies q) (k_buf (get_conn w id))) = map Some its ->
+  ends_final (q_mode q) its -> (length its < fuel)%nat ->
+  fst (consume fuel cfg (start_retry q T) w acc h fin) = run_handler h fin acc its.
+Proof. exact @call_on_buffered_replies. Qed.
+
+Print Assumptions C20_call_on_buffered_replies.
 Print Assumptions C20_call_result_is_fold_over_received_items.
 Print Assumptions C20_abort_at_any_position.
 Print Assumptions C20_begin_abort_anywhere.
